@@ -30,8 +30,8 @@
    Only statements, closed by [exact], with [Print Assumptions] beneath each. *)
 From Coq Require Import List NArith ZArith Bool Permutation.
 From Verif Require Import Base.Outcome Gen.Consts Wire.Item Generic.Types Generic.Enc Generic.Dec.
-From Verif Require Import C01.ComposeFloat C01.ComposeSimple C01.ComposeMsgpack C01.ComposeCbor.
-From Verif Require Wire.Simple Wire.Msgpack Wire.Cbor C10.CborConv.
+From Verif Require Import C01.ComposeFloat C01.ComposeSimple C01.ComposeMsgpack C01.ComposeCbor C01.ComposeBinc.
+From Verif Require Wire.Simple Wire.Msgpack Wire.Cbor C10.CborConv Wire.Binc Wire.BincProofs.
 Import ListNotations.
 
 (* ---------------- simple ---------------- *)
@@ -134,6 +134,40 @@ Theorem C01_cbor_roundtrip_bytes_partial :
   veq (normL cbor_losses O (arrange O pi v)) (normL cbor_losses O v).
 Proof. exact cbor_compose_partial. Qed.
 Print Assumptions C01_cbor_roundtrip_bytes_partial.
+
+(* ---------------- binc ---------------- *)
+
+Theorem C01_binc_wire_ok : forall (e : Binc.eopts) (d : Binc.dopts),
+  wire_ok (W_binc e d) /\ same_losses (losses_of (W_binc e d)) binc_losses.
+Proof. exact (fun e d => conj (W_binc_ok e d) (W_binc_losses e d)). Qed.
+Print Assumptions C01_binc_wire_ok.
+
+(* binc, FULL, stateful: in ANY Encoder symbol table [est] and Decoder symbol table [dst] related by
+   BincProofs.R (a fresh pair is: R_init; successive Encode / Decode calls keep them related), for every
+   option vector (AsSymbols, StringToRaw; SignedInteger, RawToString).  Losses: the sign of a zero float
+   and the NaN payload (binc_losses).  Premises:
+     Z.of_N (maxdepth d) = maxdepth O   one effective MaxDepth for both layers;
+     wfbb                     Wire/Binc.v's [wfb] as a boolean: ranges, lengths fit an int, seconds within
+                              int64, no tags, map keys hashable and pairwise different once decoded;
+     leaves_ok                no unsigned >= 2^63 under SignedInteger (DecodeNaked hands back a negative int64);
+     depth < MaxDepth. *)
+Theorem C01_binc_roundtrip :
+  forall (e : Binc.eopts) (d : Binc.dopts) (O : gopts) (pi : order) (t : ty) (v : gv)
+         (est : Binc.estate) (dst : Binc.dstate) (rest : list N),
+  order_ok pi -> wt t v = true -> supported t = true ->
+  Z.of_N (Binc.maxdepth d) = maxdepth O ->
+  BincProofs.R est dst ->
+  wfbb e d (to_item O pi v) = true ->
+  leaves_ok (W_binc e d) (to_item O pi v) = true ->
+  (Z.of_nat (depth (to_item O pi v)) < maxdepth O)%Z ->
+  (exists dst',
+     Binc.dec_naked d dst (fst (Binc.enc e false (to_item O pi v) est) ++ rest)
+       = Ok (wn (W_binc e d) (to_item O pi v), rest, dst')
+     /\ BincProofs.R (snd (Binc.enc e false (to_item O pi v) est)) dst') /\
+  of_item (W_binc e d) O 0 t (wn (W_binc e d) (to_item O pi v)) = Ok (normL binc_losses O (arrange O pi v)) /\
+  veq (normL binc_losses O (arrange O pi v)) (normL binc_losses O v).
+Proof. exact binc_compose. Qed.
+Print Assumptions C01_binc_roundtrip.
 
 (* ---------------- non-vacuity ---------------- *)
 Definition cx_ty : ty :=
@@ -238,5 +272,22 @@ Proof.
   split; [vm_compute; repeat apply conj; try exact I; try reflexivity; try (intro; discriminate); repeat constructor; reflexivity|].
   split; [vm_compute; repeat apply conj; try exact I; try reflexivity; try (intro; discriminate)|].
   split; [vm_compute; repeat apply conj; try exact I; try reflexivity; try (intro; discriminate); repeat constructor; try reflexivity|].
+  repeat apply conj; vm_compute; reflexivity.
+Qed.
+
+Example C01_binc_nonvacuous :
+  let e := Binc.Build_eopts true false in                  (* AsSymbols *)
+  let d := Binc.Build_dopts 1024 false false in
+  Z.of_N (Binc.maxdepth d) = maxdepth cx_O1 /\
+  BincProofs.R Binc.estate0 Binc.dstate0 /\
+  wfbb e d (to_item cx_O1 cx_pi cx_val) = true /\ leaves_ok (W_binc e d) (to_item cx_O1 cx_pi cx_val) = true /\
+  wfbb e d (to_item cx_O2 cx_pi cx_val) = true /\ leaves_ok (W_binc e d) (to_item cx_O2 cx_pi cx_val) = true /\
+  (do irs <- Binc.dec_naked d Binc.dstate0 (fst (Binc.enc e false (to_item cx_O1 cx_pi cx_val) Binc.estate0) ++ [7]%N);;
+   of_item (W_binc e d) cx_O1 0 cx_ty (fst (fst irs))) = Ok (normL binc_losses cx_O1 (arrange cx_O1 cx_pi cx_val)) /\
+  (* the documented losses: -0.0 comes back +0.0, a float32 NaN comes back as the canonical one *)
+  of_item (W_binc e d) cx_O1 0 (TSlice (TFloat F32)) (wn (W_binc e d) (to_item cx_O1 cx_pi (GList (Some [GF32 2147483648%N; GF32 2139095041%N]))))
+    = Ok (GList (Some [GF32 0%N; GF32 2143289344%N])).
+Proof.
+  cbv zeta. split; [reflexivity|]. split; [exact BincProofs.R_init|].
   repeat apply conj; vm_compute; reflexivity.
 Qed.
